@@ -66,6 +66,7 @@ class LogixScenario:
         self.drv = pycomm3.LogixDriver(self.path, init_program_tags=init_program_tags)
         self.opened = None
         self.touched = False
+        self.reopened = False
         if open_driver and rng.random() < 0.3:
             # a caller may look at a driver before opening it (logging its state, a GUI showing defaults): reading the documented
             # accessors of an unopened driver changes nothing about what open() and later calls do
@@ -81,6 +82,14 @@ class LogixScenario:
             full_budget = self.b.net.call_budget
             self.b.net.call_budget = min(full_budget, 300000)
             self.opened = self.b.call("open", self.drv.open)
+            self.reopened = False
+            if self.ok() and rng.random() < 0.25:
+                # defensive "make sure it is open" code, or `with plc:` on a driver that was opened by hand (__enter__ calls open()):
+                # open() on an open driver succeeds and leaves the negotiated connection (size, ids, sequence) what it is
+                again = self.b.call("open", self.drv.open)
+                self.reopened = True
+                if not (again[0] == "ok" and again[1]):
+                    self.opened = again
             self.b.net.call_budget = full_budget
 
     def use_second_driver(self):
